@@ -1,10 +1,13 @@
 import PhysisModel.Proofs.MdlGrammar
 import PhysisModel.Proofs.MdlLayout
+import PhysisModel.Proofs.MdlGeometry
 import PhysisModel.Proofs.MdlRuntimeSize
 import PhysisModel.Spec.MdlFill
 /-!
 The reader ignores the bytes of a declaration block that carry no information
-(`Spec/MdlFill.lean`): block level, runtime-block level, and `encDeclF` generalises `encDecl`.
+(`Spec/MdlFill.lean`): block level, runtime-block level, `encDeclF` generalises `encDecl`, and the
+whole file: `encodeMdlF m fs` has the layout of `m` (`sameLayout_fill`), hence `parse_encodeF` is
+an instance of `SameLayout.parse` (`Proofs/MdlGeometry.lean`).
 -/
 namespace Physis.Mdl
 open Physis Physis.Spec.Mdl
@@ -229,15 +232,83 @@ theorem encModelData_split (v : UInt32) (d : ModelData) :
     encModelData v d = d.decls.flatMap encDecl ++ encModelData v { d with decls := [] } := by
   simp only [encModelData, List.flatMap_nil, List.nil_append]
 
-/-- filling changes no length: every offset of the file stays where it was -/
-theorem length_encodeMdlF (m : AbstractModel) (h : WF m = true) (fs : List DeclFill)
+/-- filling changes no length: the runtime block … -/
+theorem length_encModelDataF (m : AbstractModel) (h : WF m = true) (fs : List DeclFill)
     (hfs : declFillsOk (modelData m).decls fs = true) :
-    (encodeMdlF m fs).length = (encodeMdl m).length := by
+    (encModelDataF m.version (modelData m) fs).length =
+      (encModelData m.version (modelData m)).length := by
   have hok := wf_modelDataOk m h
   simp only [modelDataOk, Bool.and_eq_true, beq_iff_eq, List.all_eq_true, and_assoc] at hok
   obtain ⟨_, hdo, _⟩ := hok
-  unfold encodeMdlF encodeMdl encModelDataF
+  unfold encModelDataF
   rw [encModelData_split m.version (modelData m)]
   simp only [List.length_append, length_encDeclsF _ fs hdo hfs, length_flatMap_encDecl _ hdo]
+
+/-- … and the file: every offset of the file stays where it was -/
+theorem length_encodeMdlF (m : AbstractModel) (h : WF m = true) (fs : List DeclFill)
+    (hfs : declFillsOk (modelData m).decls fs = true) :
+    (encodeMdlF m fs).length = (encodeMdl m).length := by
+  unfold encodeMdlF encodeMdl
+  simp only [List.length_append, length_encModelDataF m h fs hfs]
+
+/-! ### the whole file -/
+
+/-- a file with filled declaration blocks has the layout of `m`: the header stage returns the same
+two headers (`parseModelData_encF`) and the sections start at the same offset -/
+theorem sameLayout_fill (m : AbstractModel) (h : WF m = true) (fs : List DeclFill)
+    (hfs : declFillsOk (modelData m).decls fs = true) : SameLayout m (encodeMdlF m fs) := by
+  refine ⟨⟨_, _, parseFileHeader_enc _ _,
+    parseModelData_encF (fileHeader m) (modelData m) (wf_modelDataOk m h) fs hfs (sections m)⟩,
+    encFileHeader (fileHeader m) ++ encModelDataF m.version (modelData m) fs, [], ?_, ?_⟩
+  · simp [encodeMdlF]
+  · rw [← length_headers m, List.length_append, List.length_append, length_encModelDataF m h fs hfs]
+
+/-- … and so has that file followed by arbitrary bytes (the reader never looks behind the sections
+it addresses): an instance of `SameLayout` that is neither `encodeMdl m` nor `encodeMdlF m fs` -/
+theorem sameLayout_fill_append (m : AbstractModel) (h : WF m = true) (fs : List DeclFill)
+    (hfs : declFillsOk (modelData m).decls fs = true) (t : Bytes) :
+    SameLayout m (encodeMdlF m fs ++ t) := by
+  have e : encodeMdlF m fs ++ t = encFileHeader (fileHeader m) ++
+      (encModelDataF m.version (modelData m) fs ++ (sections m ++ t)) := by
+    simp [encodeMdlF]
+  refine ⟨⟨_, _, by rw [e]; exact parseFileHeader_enc _ _,
+    parseModelData_encF (fileHeader m) (modelData m) (wf_modelDataOk m h) fs hfs (sections m ++ t)⟩,
+    encFileHeader (fileHeader m) ++ encModelDataF m.version (modelData m) fs, t, ?_, ?_⟩
+  · rw [e]; simp
+  · rw [← length_headers m, List.length_append, List.length_append, length_encModelDataF m h fs hfs]
+
+/-- **parse ∘ encode with arbitrary don't-care bytes in the declaration blocks**, outside the
+recorded `(BlendWeights, Byte4)` class: the same result as on the zero-filled file -/
+theorem parse_encodeF (m : AbstractModel) (h : WF m = true) (hw : noWeightsByte4 m = true)
+    (fs : List DeclFill) (hfs : declFillsOk (modelData m).decls fs = true)
+    (v : View) (hv : view m = some v) :
+    fromExisting (encodeMdlF m fs) =
+      .ok { fileHeader := fileHeader m, modelData := modelData m, lods := v.lods,
+            affectedBoneNames := v.affectedBoneNames, materialNames := v.materialNames } :=
+  (sameLayout_fill m h fs hfs).parse h hw v hv
+
+theorem parse_encodeF_view (m : AbstractModel) (h : WF m = true) (hw : noWeightsByte4 m = true)
+    (fs : List DeclFill) (hfs : declFillsOk (modelData m).decls fs = true)
+    (v : View) (hv : view m = some v) :
+    (fromExisting (encodeMdlF m fs)).map MDL.view = .ok v :=
+  (sameLayout_fill m h fs hfs).parse_view h hw v hv
+
+/-- the zero filler gives the file of `encodeMdl`: `parse_encode` is the instance
+`fs = (modelData m).decls.map DeclFill.zero` of `parse_encodeF` -/
+theorem encDeclsF_zero (ds : List (List VertexElement)) :
+    encDeclsF ds (ds.map DeclFill.zero) = ds.flatMap encDecl ∧
+      declFillsOk ds (ds.map DeclFill.zero) = true := by
+  induction ds with
+  | nil => exact ⟨rfl, rfl⟩
+  | cons d ds ih =>
+    simp only [List.map_cons, encDeclsF, declFillsOk, encDeclF_zero, declFillOk_zero, ih.1, ih.2,
+      List.flatMap_cons, Bool.and_self, and_self]
+
+theorem encodeMdlF_zero (m : AbstractModel) :
+    encodeMdlF m ((modelData m).decls.map DeclFill.zero) = encodeMdl m ∧
+      declFillsOk (modelData m).decls ((modelData m).decls.map DeclFill.zero) = true := by
+  refine ⟨?_, (encDeclsF_zero _).2⟩
+  unfold encodeMdlF encodeMdl encModelDataF
+  rw [(encDeclsF_zero _).1, ← encModelData_split]
 
 end Physis.Mdl
